@@ -5,6 +5,7 @@
 -/
 import CdsVerif.Algo.Splitter.Model
 import CdsVerif.Algo.Counter.Model
+import CdsVerif.Algo.HP.Scan
 import CdsVerif.Driver.LinCheck
 namespace CdsVerif.Driver
 open CdsVerif.Algo
@@ -71,6 +72,11 @@ def seqEvalLine (line : String) : String :=
     match num.toNat?, off.toNat?, ops.mapM parseCutOp with
     | some n, some off, some ops => " ".intercalate (runNS ⟨BitVec.ofNat 64 n, BitVec.ofNat 32 off⟩ ops)
     | _, _, _ => "bad-line"
+  | "scan" :: kind :: "H" :: rest =>
+    let hz := (rest.takeWhile (· ≠ "R")).filterMap (·.toNat?)
+    let rt := ((rest.dropWhile (· ≠ "R")).drop 1).filterMap (·.toNat?)
+    let r := if kind == "classic" then HP.classicScan hz rt else HP.inplaceScan hz rt
+    "K " ++ " ".intercalate (r.1.map toString) ++ " F " ++ " ".intercalate (r.2.map toString)
   | "counter" :: ops =>
     " ".intercalate (runCtr Counter.Ctr.init (ops.map (· == "i")))
   | _ => "bad-line"
